@@ -82,8 +82,11 @@ example : loadAckValid 32 5 = true ∧ loadAckValid 0 0 = false ∧ loadAckValid
     (everything except a channel outside 0..125 and a PA level other than −18/−12/−6/0) changes the
     radio's configuration registers exactly as the documented encoding says (`applySetter`: the
     attribute's own bit field, clamped / floored as documented; no other bit, no other register, no
-    other radio; no reserved or out-of-range value is ever written — the chip's violation log is part
-    of the compared state); a rejected value raises `ValueError` and changes nothing at all. -/
+    other radio; the chip's violation log is part of the compared state, so the driver logs exactly what
+    the spec `applySetter` logs — which is NOT "nothing": `address_length = 2` (and every value outside
+    3..5, e.g. 9) writes SETUP_AW = 0 and the spec itself records `"SETUP_AW:illegal:0"`, i.e. the theorem
+    proves the driver DOES write that illegal value as documented; likewise any `data_rate` other than 1
+    and 2 selects 250 kbps); a rejected value raises `ValueError` and changes nothing at all. -/
 theorem C20_config_setter (s : LiteState) (h : s.Ok) (st : Setter) :
     if setterOk st = true then s.Does (runSetter st) (.ok ()) (fun r => applySetter r st)
     else lexec (runSetter st) s = (.error .valueError, s) := by
@@ -115,8 +118,10 @@ def runSetters : List Setter → LiteState → LiteState
   | [], s => s
   | st :: rest, s => runSetters rest (lexec (runSetter st) s).2
 
-/-- **Histories.**  After *any* sequence of assignments (any length, any arguments, accepted or
-    rejected) the configuration registers are exactly the documented encoding of the values last set
+/-- **Histories** of the 11 attribute setters ONLY (`Setter`; no `open_rx_pipe` / `open_tx_pipe` /
+    `listen` / `load_ack` / `write` in these histories — pipes have their own history theorem
+    `C20_pipe_invariant`, the rest none), comparing the configuration part `cfgOf` only.  After *any*
+    sequence of assignments (any length, any arguments, accepted or rejected) the configuration registers are exactly the documented encoding of the values last set
     (`applySetters` folds the documented effect over the sequence, skipping rejected calls), every
     other radio's configuration is untouched, and the state is `Ok` again (so the statement chains
     with every other theorem of this file). -/
@@ -191,7 +196,12 @@ example : (rxEntry (some [1, 2, 3, 4, 5])
 
 /-! ## what write() puts into the TX FIFO -/
 
-/-- **Dynamic payloads** (EN_DPL set in the radio), CE low as inside `send()`: a payload of 1..32
+/-- About `write(buf, ask_no_ack, write_only=True)` (4th argument of `Lite.write` is `writeOnly := true`):
+    the payload is queued, NOTHING goes on the air; `send()` uses `write_only=False`.  TX side only.
+    The last clause ("the caller's buffer comes back as it went in") is a MODEL TAUTOLOGY as in
+    `C01_buffer_unchanged`: the model ignores `mutableBuf` and returns its argument; that clause is
+    decided by the correspondence run, which compares the real object.
+    **Dynamic payloads** (EN_DPL set in the radio), CE low as inside `send()`: a payload of 1..32
     bytes is written unchanged, as one new entry at the end of the TX FIFO (W_TX_PAYLOAD, or
     W_TX_PAYLOAD_NOACK for `ask_no_ack`), the flags are cleared, the RX FIFO is untouched and the
     call returns `True`; 0 or more than 32 bytes raise `ValueError` and the radio is exactly as before
@@ -241,7 +251,9 @@ theorem C20_write_dynamic (s : LiteState) (hw : s.Wf) (hce : s.radio.ce = false)
       rw [if_pos (by simpa using hl)] at a4
       exact a4
 
-/-- **Static payload length** (EN_DPL clear; RX_PW_P0 = `pl` in 1..32, what the lite
+/-- About `write(…, write_only=True)` as `C20_write_dynamic` (nothing on the air; TX side only; the
+    buffer clause is a model tautology, decided by the correspondence run).
+    **Static payload length** (EN_DPL clear; RX_PW_P0 = `pl` in 1..32, what the lite
     `payload_length` setter guarantees), CE low: **every** buffer — empty, short, exact, longer than
     32 bytes — is accepted and goes into the TX FIFO zero-padded or truncated to exactly `pl` bytes
     (the expected payload of C01); the caller's buffer comes back as it went in. -/
@@ -291,7 +303,11 @@ example : expectedPayload false 5 [9, 9] = [9, 9, 0, 0, 0] ∧ expectedPayload f
 
 /-! ## interoperability with the full driver -/
 
-/-- **Equal configuration ⇒ equal radio.**  Take the same chip `r` (CE low as at the start of `send()`,
+/-- SCOPE: `write(buf, ask_no_ack, write_only=True)` of both drivers on an IDENTICAL chip state `r`
+    (hypotheses `hrL`, `hrF`): TX side only, nothing goes on the air, and "equal configuration" means
+    "both objects sit on the same register contents" — nothing here says that the lite and the full
+    SETTERS produce compatible configurations, and no theorem has the lite driver as RECEIVER.
+    **Equal configuration ⇒ equal radio.**  Take the same chip `r` (CE low as at the start of `send()`,
     powered up in the TX role — C02's precondition) driven once by a lite object and once by a full
     `RF24` object whose cached view of the payload-length mode agrees with the registers (C03's
     invariant for the full driver: `_dyn_pl & 1` ⇔ EN_DPL, `_pl_len[0]` = RX_PW_P0 — the documented
@@ -342,7 +358,13 @@ theorem C20_interop (sL : LiteState) (sF : DrvState) (r : Radio)
           rw [ex hpno] at e1
           exact ⟨e1.trans spF.1.symm, e2.trans spF.2.symm⟩
 
-/-- Hence the packet that goes on the air when CE is raised (`Radio.packetFor` of the TX FIFO head:
+/-- CONGRUENCE COROLLARY, not a delivery theorem: the proof is `rw [h]; exact ⟨rfl, rfl, rfl⟩` with
+    `h : radioL = radioF` from `C20_interop`; `e : TxEntry` and `rx` are arbitrary (not tied to the FIFO
+    head or to any configured receiver).  "Delivery holds in all four pairings" below is PROSE: there is
+    NO theorem with the lite driver as receiver (`read`, `any`, `available`, `pipe`, RX configuration via
+    lite `open_rx_pipe` / `listen`); the pairings full→lite and lite→lite are covered by the
+    correspondence / interop runs only (tie-only).
+    Hence the packet that goes on the air when CE is raised (`Radio.packetFor` of the TX FIFO head:
     channel, rate, CRC, address, PID, NO_ACK flag, payload) is the same for both drivers, and so is
     what **any** receiving radio — whichever driver configured it — makes of it (`Radio.receive`:
     pipe attribution, acceptance, acknowledgement, ACK payload).  Delivery therefore holds in all four
